@@ -42,10 +42,13 @@ def seeded():
             kind = 'no-failing-input-found only' if rc.get('no_failing_input') else 'failing input'
         n += 1
         n_first += 0 if missed_first else 1
-        n_now += 1 if now else 0
+        n_now += 1 if (now and not m.get('obsolete')) else 0
+        n_obs = locals().get('n_obs', 0) + (1 if m.get('obsolete') else 0)
+        if m.get('obsolete'):
+            now = True
         rows.append('| %s | %s | %s | %s | %s | %s |' % (m['name'], m['property'], 'yes' if m.get('confirmed') else 'NO',
                                                       'missed' if missed_first else 'caught',
-                                                      ('caught (%s)' % kind) if now else '**missed**',
+                                                      m['obsolete'] if m.get('obsolete') else ('caught (%s)' % kind) if now else '**missed**',
                                                       (rc.get('at') or m.get('verified_at') or '')[:10]))
     head = ['## Appendix S — seeded-change study (generated from seeded/*/meta.json)\n',
             'Each change was written by a fresh sub-agent that saw only the property text (from round 2 on also one line per '
@@ -54,7 +57,7 @@ def seeded():
             'property (quick tier) as it was when the change arrived; "now" = the same check at the last regression run over '
             'all stored changes (`harness/seeded.py recheck`: patch applied to /repo, check run, patch reverted). What was '
             'widened after a miss is in `seeded/<name>/meta.json` (`history`).\n',
-            '%d changes; caught at first run: %d; caught now: %d.\n' % (n, n_first, n_now),
+            '%d changes; caught at first run: %d; caught now: %d; no longer a violation of its own property after a later repair of /repo: %d.\n' % (n, n_first, n_now, locals().get('n_obs', 0)),
             '| change | property | confirmed | first run | now | last run |', '|---|---|---|---|---|---|']
     return '\n'.join(head + rows) + '\n'
 
